@@ -137,11 +137,12 @@ var errNotFn = errors.New("callee is not a function")
 
 // refEval evaluates a reference tree over a store. log receives the arguments of rec(...) calls.
 type refEval struct {
-	Store    map[string]MV // the data map including $-locals
-	Log      []MV
-	Assigned map[string]bool // names bound by an assignment so far (when non-nil)
-	ThisNull bool            // the runner has no data map: `this` is null
-	Self     bool            // `this` is a value (the store itself): `$s = this`, `$s.x`, `$s.$s.x`
+	Store           map[string]MV // the data map including $-locals
+	Log             []MV
+	Assigned        map[string]bool // names bound by an assignment so far (when non-nil)
+	ThisNull        bool            // the runner has no data map: `this` is null
+	NullSafeMembers bool            // member access on null is null ('.') or an error ('!.'), also below a missing name
+	Self            bool            // `this` is a value (the store itself): `$s = this`, `$s.x`, `$s.$s.x`
 }
 
 func (e *refEval) eval(n *ref.Node) (MV, error) {
@@ -213,7 +214,7 @@ func (e *refEval) eval(n *ref.Node) (MV, error) {
 			}
 			return mvNull, nil
 		}
-		if e.Self {
+		if e.Self || e.NullSafeMembers {
 			base, err := e.eval(n.Kids[0])
 			if err != nil {
 				return mvNull, err
